@@ -171,6 +171,27 @@ func (p propC19) Gen(r *simrt.Rand, idx int, tier string) any {
 		}
 		return c
 	}
+	if idx%30 == 7 {
+		// thousands of records read back by a fresh process: the scan at Open must decode every one
+		c := SeqCase{Prop: "C19", ReadBack: "none", Dir: "segments"}
+		c.Sched = SchedSpec{Seed: r.Uint64(), Strategy: "seqbg", MaxSteps: 6_000_000}
+		c.World = defaultWorldSpec()
+		nk := 1025 + r.Intn(1400)
+		for i := 0; i < nk; i++ {
+			c.Keys = append(c.Keys, fmt.Sprintf("rec-%04d-%s", i, strings.Repeat("k", i%7)))
+		}
+		id := uint64(0)
+		for i := 0; i < nk; i++ {
+			id++
+			c.Ops = append(c.Ops, Op{K: "set", Key: c.Keys[i], ID: id, Size: 1 + r.Intn(24)})
+		}
+		c.Ops = append(c.Ops, Op{K: "restart"}, Op{K: "keys"})
+		for _, ki := range r.Perm(nk)[:60] {
+			c.Ops = append(c.Ops, Op{K: "get", Key: c.Keys[ki]})
+		}
+		c.Ops = append(c.Ops, Op{K: "restart"}, Op{K: "keys"})
+		return c
+	}
 	c := genSeqCase(r, seqProfile{prop: "C19", steps: [2]int{12, 40}, keys: [2]int{2, 4}, maxTx: 3, txWeight: 45, ctlWeight: 8, reopen: 12, readback: "all"})
 	// arbitrary key bytes (the inline client takes any string)
 	odd := []string{string([]byte{0xff, 0xfe, 0x00, 0x01}), "\x00", "a\nb", strings.Repeat("\xf0\x9f\x92\xa9", 3)}
